@@ -1,7 +1,9 @@
 package v2proto
 
 import (
+	"encoding/hex"
 	"fmt"
+	"strings"
 
 	"github.com/onosproject/onos-config/verifharness/internal/fw"
 )
@@ -83,3 +85,477 @@ func monitorC01(c fw.Case, outs []string) []string {
 	}
 	return fails
 }
+
+// stepInfo pairs each `v2.run` line with the states before and after it.
+type stepInfo struct {
+	line          string
+	actor         string
+	before, after *State
+}
+
+func steps(c fw.Case, outs []string) []stepInfo {
+	var res []stepInfo
+	var prev *State
+	sts := States(outs)
+	for i, ln := range c.Script {
+		if i >= len(sts) {
+			break
+		}
+		if strings.HasPrefix(ln, "v2.reset") {
+			prev = &State{Tx: map[int]*TxS{}, Prop: map[string]*PropS{}, Cfg: map[int]*CfgS{}, Dev: map[int]map[string]string{}}
+			continue
+		}
+		if sts[i] == nil {
+			continue
+		}
+		if strings.HasPrefix(ln, "v2.run ") && prev != nil {
+			f := strings.Fields(ln)
+			res = append(res, stepInfo{line: ln, actor: f[1], before: prev, after: sts[i]})
+		}
+		prev = sts[i]
+	}
+	return res
+}
+
+func chainDone(s *State, target, idx int) bool {
+	// every chained proposal of the target with a smaller index has finished applying or was aborted
+	for _, p := range s.Prop {
+		if p.Target == target && p.Index < idx {
+			if !(p.Apply == "d" || p.Apply == "f" || p.Abort == "d" || p.Validate == "f") {
+				return false
+			}
+		}
+	}
+	return true
+}
+
+// monitorC02: cursors never go back; merges happen in increasing index order; a change is sent to
+// the device only after it was merged and after every earlier proposal of the target finished.
+func monitorC02(c fw.Case, outs []string) []string {
+	var fails []string
+	lastMerge := map[int]int{}
+	for _, st := range steps(c, outs) {
+		for t, cb := range st.after.Cfg {
+			ca := st.before.Cfg[t]
+			if ca == nil {
+				continue
+			}
+			if cb.Committed < ca.Committed {
+				fails = append(fails, fmt.Sprintf("cursor: committed index of target %d went back %d -> %d at %q", t, ca.Committed, cb.Committed, st.line))
+			}
+			if cb.Applied < ca.Applied {
+				fails = append(fails, fmt.Sprintf("cursor: applied index of target %d went back %d -> %d at %q", t, ca.Applied, cb.Applied, st.line))
+			}
+			if cb.Committed != ca.Committed {
+				if p := st.after.Prop[fmt.Sprintf("%d-%d", t, cb.Committed)]; p != nil && p.Commit != "-" {
+					if cb.Committed <= lastMerge[t] {
+						fails = append(fails, fmt.Sprintf("merge-order: target %d merged %d after %d", t, cb.Committed, lastMerge[t]))
+					}
+					lastMerge[t] = cb.Committed
+				}
+			}
+		}
+		// new southbound requests of a proposal step
+		if strings.HasPrefix(st.actor, "prop:") && len(st.after.Log) > len(st.before.Log) {
+			f := strings.Split(st.actor, ":")
+			t, idx := atoi(f[1]), atoi(f[2])
+			cfg := st.before.Cfg[t]
+			p := st.before.Prop[fmt.Sprintf("%d-%d", t, idx)]
+			if cfg == nil || p == nil {
+				fails = append(fails, fmt.Sprintf("apply: request for %s without configuration/proposal", st.actor))
+				continue
+			}
+			if cfg.Committed < idx {
+				fails = append(fails, fmt.Sprintf("apply-before-merge: change %d of target %d sent while committed index is %d", idx, t, cfg.Committed))
+			}
+			if !chainDone(st.before, t, idx) {
+				fails = append(fails, fmt.Sprintf("apply-order: change %d of target %d sent before an earlier proposal finished", idx, t))
+			}
+			if cfg.Applied >= idx {
+				fails = append(fails, fmt.Sprintf("apply-repeat: change %d of target %d sent although applied index is %d", idx, t, cfg.Applied))
+			}
+		}
+	}
+	return fails
+}
+
+// monitorC10: terms never decrease and grow by one on every new assignment; the master is a live
+// relation of the target or none; every request carries the configuration's current term over the
+// master's connection, and is sent only when the applied term equals the term (re-synchronised).
+func monitorC10(c fw.Case, outs []string) []string {
+	var fails []string
+	live := map[int]int{} // relation -> target
+	sts := States(outs)
+	var prev *State
+	for i, ln := range c.Script {
+		if i >= len(sts) {
+			break
+		}
+		f := strings.Fields(ln)
+		if len(f) >= 3 && f[0] == "v2.fault" {
+			switch f[1] {
+			case "relup":
+				live[atoi(f[2])] = atoi(f[3])
+			case "reldown":
+				delete(live, atoi(f[2]))
+			}
+		}
+		if strings.HasPrefix(ln, "v2.reset") {
+			live = map[int]int{}
+			prev = nil
+		}
+		st := sts[i]
+		if st == nil {
+			continue
+		}
+		if prev != nil && f[0] == "v2.run" {
+			for t, cb := range st.Cfg {
+				ca := prev.Cfg[t]
+				if ca == nil {
+					continue
+				}
+				if cb.Term < ca.Term {
+					fails = append(fails, fmt.Sprintf("term: target %d term went back %d -> %d", t, ca.Term, cb.Term))
+				}
+				if cb.Master != ca.Master {
+					if cb.Master != 0 {
+						if cb.Term != ca.Term+1 {
+							fails = append(fails, fmt.Sprintf("term: target %d master %d -> %d but term %d -> %d", t, ca.Master, cb.Master, ca.Term, cb.Term))
+						}
+						if tg, ok := live[cb.Master]; !ok || tg != t {
+							fails = append(fails, fmt.Sprintf("master: target %d elected relation %d which is not a live relation of it", t, cb.Master))
+						}
+					} else if cb.Term != ca.Term {
+						fails = append(fails, fmt.Sprintf("term: target %d resigned but term changed %d -> %d", t, ca.Term, cb.Term))
+					}
+				} else if cb.Term != ca.Term {
+					fails = append(fails, fmt.Sprintf("term: target %d term changed %d -> %d without a new master", t, ca.Term, cb.Term))
+				}
+			}
+			for k := len(prev.Log); k < len(st.Log); k++ {
+				r := st.Log[k]
+				cfg := prev.Cfg[r.Target]
+				if cfg == nil {
+					fails = append(fails, "write: request to a target without configuration")
+					continue
+				}
+				if r.Term != cfg.Term {
+					fails = append(fails, fmt.Sprintf("write-term: request to target %d carries term %d, current term %d", r.Target, r.Term, cfg.Term))
+				}
+				if r.Conn != cfg.Master {
+					fails = append(fails, fmt.Sprintf("write-conn: request to target %d over %d, master is %d", r.Target, r.Conn, cfg.Master))
+				}
+				if strings.HasPrefix(f[1], "prop:") && cfg.AppliedTerm != cfg.Term {
+					fails = append(fails, fmt.Sprintf("resync-first: change sent to target %d in term %d before re-synchronisation (applied term %d)", r.Target, cfg.Term, cfg.AppliedTerm))
+				}
+			}
+		}
+		prev = st
+	}
+	return fails
+}
+
+func txEq(a, b *State) bool {
+	if len(a.Tx) != len(b.Tx) {
+		return false
+	}
+	for i, x := range a.Tx {
+		y := b.Tx[i]
+		if y == nil || fmt.Sprint(*x) != fmt.Sprint(*y) {
+			return false
+		}
+	}
+	return true
+}
+
+func propEq(a, b *State) bool {
+	if len(a.Prop) != len(b.Prop) {
+		return false
+	}
+	for i, x := range a.Prop {
+		y := b.Prop[i]
+		if y == nil || *x != *y {
+			return false
+		}
+	}
+	return true
+}
+
+// cfgEq compares configurations, skipping target `skip`.
+func cfgEq(a, b *State, skip int) bool {
+	for t, x := range a.Cfg {
+		if t == skip {
+			continue
+		}
+		y := b.Cfg[t]
+		if y == nil || fmt.Sprint(*x) != fmt.Sprint(*y) {
+			return false
+		}
+	}
+	return len(a.Cfg) == len(b.Cfg)
+}
+
+// liveOf is what a Get returns: the values that are not tombstones.
+func liveOf(m map[string]PVS) map[string]string {
+	out := map[string]string{}
+	for p, v := range m {
+		if !v.Deleted {
+			out[p] = v.Value
+		}
+	}
+	return out
+}
+
+func devEq(a, b map[string]string) bool {
+	if len(a) != len(b) {
+		return false
+	}
+	for k, v := range a {
+		if b[k] != v {
+			return false
+		}
+	}
+	return true
+}
+
+// monitorC11: a device refusal fails exactly that change (recorded class, applied index advanced,
+// device and every other record untouched); an unreachable device or a superseded master changes
+// nothing at all.
+func monitorC11(c fw.Case, outs []string) []string {
+	var fails []string
+	for _, st := range steps(c, outs) {
+		if !strings.HasPrefix(st.actor, "prop:") || strings.Contains(st.line, "inject=") {
+			continue
+		}
+		dev := ""
+		for _, a := range strings.Fields(st.line) {
+			if strings.HasPrefix(a, "dev=") {
+				dev = strings.TrimPrefix(a, "dev=")
+			}
+		}
+		f := strings.Split(st.actor, ":")
+		t, idx := atoi(f[1]), atoi(f[2])
+		key := fmt.Sprintf("%d-%d", t, idx)
+		pb, pa := st.before.Prop[key], st.after.Prop[key]
+		if pb == nil || pa == nil || pb.Apply != "o" {
+			continue
+		}
+		attempted := true
+		switch {
+		case dev == "retry" || dev == "wait":
+			if !txEq(st.before, st.after) || !propEq(st.before, st.after) || !cfgEq(st.before, st.after, -1) ||
+				!devEq(st.before.Dev[t], st.after.Dev[t]) {
+				fails = append(fails, fmt.Sprintf("transient: %q changed a record or the device", st.line))
+			}
+			if pa.Apply == "f" {
+				fails = append(fails, fmt.Sprintf("transient-failed: %q failed the change", st.line))
+			}
+		case strings.HasPrefix(dev, "fail:") && len(st.after.Log) > len(st.before.Log) && attempted:
+			class := strings.TrimPrefix(dev, "fail:")
+			if pa.Apply != "f" || pa.AFail != class {
+				fails = append(fails, fmt.Sprintf("refusal: %q: proposal apply=%s failure=%s, want FAILED/%s", st.line, pa.Apply, pa.AFail, class))
+			}
+			if !devEq(st.before.Dev[t], st.after.Dev[t]) {
+				fails = append(fails, fmt.Sprintf("refusal: %q changed the device", st.line))
+			}
+			if !cfgEq(st.before, st.after, t) {
+				fails = append(fails, fmt.Sprintf("refusal: %q touched another target's configuration", st.line))
+			}
+			if ca := st.after.Cfg[t]; ca == nil || ca.Applied != idx {
+				fails = append(fails, fmt.Sprintf("refusal: %q did not advance the applied index to %d", st.line, idx))
+			}
+		}
+	}
+	return fails
+}
+
+// drained returns the state of every `v2.drain` answer.
+func drained(c fw.Case, outs []string) []*State {
+	var res []*State
+	for i, ln := range c.Script {
+		if strings.HasPrefix(ln, "v2.drain") && i < len(outs) {
+			if s, ok := Parse(outs[i]); ok {
+				if strings.Contains(outs[i], "quiescent=false") {
+					s.Head = "not-quiescent"
+				}
+				res = append(res, s)
+			}
+		}
+	}
+	return res
+}
+
+// monitorC09: once the controllers are idle with every target connected, every transaction is
+// final (APPLIED or FAILED) — nothing that could make progress is stranded.
+func monitorC09(c fw.Case, outs []string) []string {
+	var fails []string
+	for _, s := range drained(c, outs) {
+		if s.Head == "not-quiescent" {
+			fails = append(fails, "livelock: the controllers did not reach a fixed point within the sweep bound")
+			continue
+		}
+		for i, tx := range s.Tx {
+			// the statement's precondition: every target the transaction names is connected
+			connected := tx.HasProps
+			for _, pid := range tx.Props {
+				p := s.Prop[pid]
+				if p == nil {
+					connected = false
+					continue
+				}
+				if cfg := s.Cfg[p.Target]; cfg == nil || cfg.Master == 0 {
+					connected = false
+				}
+			}
+			if !connected && tx.State != "FAILED" {
+				continue
+			}
+			if tx.State != "APPLIED" && tx.State != "FAILED" {
+				fails = append(fails, fmt.Sprintf("stranded: transaction %d is %s at the fixed point with every target connected", i, tx.State))
+			} else if tx.State == "FAILED" && tx.Abort == "o" {
+				fails = append(fails, fmt.Sprintf("stranded: transaction %d is FAILED but its abort never completes", i))
+			}
+		}
+	}
+	return fails
+}
+
+// monitorC04: at the fixed point, connected and synchronized, the device holds exactly the live
+// stored values of the transactions whose apply did not fail.
+func monitorC04(c fw.Case, outs []string) []string {
+	var fails []string
+	for _, s := range drained(c, outs) {
+		if s.Head == "not-quiescent" {
+			continue
+		}
+		for t, cfg := range s.Cfg {
+			if cfg.State != "SYNCHRONIZED" || cfg.Master == 0 {
+				continue
+			}
+			want := map[string]string{}
+			for path, pv := range cfg.View {
+				if pv.Deleted {
+					continue
+				}
+				if p := s.Prop[fmt.Sprintf("%d-%d", t, pv.Index)]; p != nil && p.Apply == "f" {
+					continue
+				}
+				want[path] = pv.Value
+			}
+			got := s.Dev[t]
+			for path, v := range want {
+				if got[path] != v {
+					fails = append(fails, fmt.Sprintf("converge: target %d device lacks %s=%s (has %q)", t, path, v, got[path]))
+				}
+			}
+			for path, v := range got {
+				if _, ok := want[path]; !ok {
+					fails = append(fails, fmt.Sprintf("converge: target %d device holds %s=%s which the stored configuration does not", t, path, v))
+				}
+			}
+		}
+	}
+	return fails
+}
+
+// monitorC07: the outcome of a history with failed/lost writes (crashes between two writes) equals
+// the outcome of the same history without them, once both are driven to the fixed point.
+func monitorC07(c fw.Case, outs []string) []string {
+	ds := drained(c, outs)
+	if len(ds) != 2 || !CleanHistory(c) {
+		// a history that writes below a path deleted in the same request has a map-order dependent
+		// outcome even without crashes (C03's finding); the comparison needs a deterministic outcome
+		return nil
+	}
+	a, b := ds[0], ds[1]
+	var fails []string
+	if a.Head == "not-quiescent" || b.Head == "not-quiescent" {
+		return []string{"blocked: a run did not reach its fixed point"}
+	}
+	for i, x := range a.Tx {
+		y := b.Tx[i]
+		if y == nil || x.State != y.State || x.Failure != y.Failure {
+			fails = append(fails, fmt.Sprintf("outcome: transaction %d ends %s/%s with crashes and %v without", i, x.State, x.Failure, y))
+		}
+	}
+	for t, x := range a.Cfg {
+		y := b.Cfg[t]
+		if y == nil {
+			fails = append(fails, fmt.Sprintf("outcome: target %d has a configuration only with crashes", t))
+			continue
+		}
+		if fmt.Sprint(liveOf(x.View)) != fmt.Sprint(liveOf(y.View)) || x.Committed != y.Committed || x.Applied != y.Applied {
+			fails = append(fails, fmt.Sprintf("outcome: target %d stored configuration differs with/without crashes: %v/%d/%d vs %v/%d/%d", t, x.View, x.Committed, x.Applied, y.View, y.Committed, y.Applied))
+		}
+		if !devEq(a.Dev[t], b.Dev[t]) {
+			fails = append(fails, fmt.Sprintf("outcome: target %d device differs with/without crashes: %v vs %v", t, a.Dev[t], b.Dev[t]))
+		}
+	}
+	return fails
+}
+
+// CleanHistory is the decidable signature shared by the known value-path findings: it is false
+// iff the script writes below (textually) a path deleted earlier or in the same request, deletes a
+// path that is a textual but not an element-boundary prefix of another path of the target, nests
+// tombstones, or rolls anything back.
+func CleanHistory(c fw.Case) bool {
+	deleted := map[string][]string{}
+	used := map[string][]string{}
+	for _, ln := range c.Script {
+		f := strings.Fields(ln)
+		if len(f) == 0 {
+			continue
+		}
+		if f[0] == "v2.reset" {
+			deleted, used = map[string][]string{}, map[string][]string{}
+		}
+		if f[0] == "v2.rollback" {
+			return false
+		}
+		if f[0] != "v2.set" {
+			continue
+		}
+		for _, ch := range f[3:] {
+			t, vals, _ := strings.Cut(ch, "/")
+			var paths []string
+			var dels []bool
+			for _, tok := range strings.Split(vals, ",") {
+				hp, rest, _ := strings.Cut(tok, "=")
+				b, _ := hex.DecodeString(hp)
+				paths = append(paths, string(b))
+				dels = append(dels, strings.Contains(rest, ":d:"))
+			}
+			for i, p := range paths {
+				for _, d := range deleted[t] {
+					if strings.HasPrefix(p, d) && p != d {
+						return false
+					}
+					if dels[i] && strings.HasPrefix(d, p) && d != p {
+						return false
+					}
+				}
+				for j, q := range paths {
+					if i != j && dels[j] && strings.HasPrefix(p, q) {
+						return false
+					}
+				}
+				if dels[i] {
+					for _, q := range append(append([]string{}, used[t]...), paths...) {
+						if strings.HasPrefix(q, p) && !elemPrefix(q, p) {
+							return false
+						}
+					}
+				}
+			}
+			for i, p := range paths {
+				if dels[i] {
+					deleted[t] = append(deleted[t], p)
+				}
+				used[t] = append(used[t], p)
+			}
+		}
+	}
+	return true
+}
+
+func dirtySig(c fw.Case, outs []string, msg string) bool { return !CleanHistory(c) }
